@@ -144,6 +144,49 @@ fn run_history(cap: usize, start: usize, mode: Mode, hist: u128, len: usize) -> 
     Ok((i, r.pos))
 }
 
+/// soak probe: one long deterministic interleaving (bursts of varying length, always inside the
+/// boundary) on a single fork; by_ref re-split every 97 steps, then by_rc for the second half
+fn soak(cap: usize, steps: usize) -> Option<(String, String)> {
+    let (src, c) = source();
+    let mut fork = src.fork(Bounded::from(vec![-1.0f64; cap]));
+    let mut r = Ref::default();
+    let tag = format!("soak cap={cap} steps={steps}");
+    let pick = |t: usize, r: &Ref| -> usize {
+        // bursts: A for a while, then B for a while, lengths cycling through 1..=2*cap+1
+        let burst = 1 + (t / 7) % (2 * cap + 1);
+        let want = (t / burst) % 2;
+        let mut p = r.pos;
+        p[want] += 1;
+        if p[0].abs_diff(p[1]) <= cap {
+            want
+        } else {
+            1 - want
+        }
+    };
+    let mut t = 0;
+    while t < steps / 2 {
+        let (mut a, mut b) = fork.by_ref();
+        for _ in 0..97 {
+            let who = pick(t, &r);
+            let f = if who == 0 { a.next() } else { b.next() };
+            if let Some(bad) = after(&mut r, who, f, [a.pending_frames(), b.pending_frames()], c.pulls(), &format!("{tag} step {t} (by_ref)")) {
+                return Some(bad);
+            }
+            t += 1;
+        }
+    }
+    let (mut a, mut b) = fork.by_rc();
+    while t < steps {
+        let who = pick(t, &r);
+        let f = if who == 0 { a.next() } else { b.next() };
+        if let Some(bad) = after(&mut r, who, f, [a.pending_frames(), b.pending_frames()], c.pulls(), &format!("{tag} step {t} (by_rc)")) {
+            return Some(bad);
+        }
+        t += 1;
+    }
+    None
+}
+
 fn show(hist: u128, len: usize) -> String {
     (0..len).map(|i| if (hist >> i) & 1 == 0 { 'A' } else { 'B' }).collect()
 }
@@ -238,6 +281,9 @@ fn main() {
     let ctx: &'static Ctx = Ctx::leak("C12", "release");
     if let Some(v) = ctx.replay_case() {
         guard::enter(&v.to_string());
+        if v["sys"] == "fork_soak" {
+            ctx.finish_replay(soak(v["cap"].as_u64().unwrap_or(1) as usize, v["steps"].as_u64().unwrap_or(1000) as usize).map(|e| e.1));
+        }
         if v["sys"] == "fork_ctor" {
             ctx.finish_replay(ctor_case(v["cap"].as_u64().unwrap_or(1) as usize, v["start"].as_u64().unwrap_or(0) as usize, v["len"].as_u64().unwrap_or(0) as usize).map(|e| e.1));
         }
@@ -343,6 +389,16 @@ fn main() {
     ctx.add_evals(evals + hist_n.load(Relaxed) + TRANS.load(Relaxed));
     ctx.set("merged_unique_states", json!(uniq));
     ctx.set("merged_max_depth", json!(res.iter().map(|r| r.1).max()));
+    let soak_steps = ctx.tier.pick(50_000, 1_000_000);
+    for cap in [1usize, 2, 3, 5, 8, 64] {
+        guard::enter(&json!({"sys":"fork_soak","cap":cap,"steps":soak_steps}).to_string());
+        ctx.add_evals(soak_steps as u64);
+        ctx.add_transitions(soak_steps as u64);
+        if let Some((k, m)) = soak(cap, soak_steps) {
+            ctx.violation(&k, json!({"sys":"fork_soak","cap":cap,"steps":soak_steps}), m, Some(&|| soak(cap, soak_steps).map(|e| e.1)));
+        }
+    }
+    ctx.rule(&format!("soak probes: one deterministic interleaving of {soak_steps} pulls (bursts of cycling length, always inside the boundary) per capacity in 1,2,3,5,8,64 on a single fork: by_ref re-split every 97 steps for the first half, by_rc for the second (single executions, labelled)"));
     ctx.set("exhaustive", json!(true));
     ctx.set("exhaustive_scope", json!(format!("every in-boundary interleaving up to length {len} for capacities 1..=4 (unmerged); the merged run reaches a fixpoint of (lead, ring phase) and so covers longer histories under the stated abstraction")));
     ctx.sample(case_json(3, 1, Mode::RefHold, 0b0001_1101_0110, 12));
